@@ -439,6 +439,17 @@ class Summariser:
                 val = env2[test.left.target.id]
                 new = ast.Compare(left=val, ops=test.ops, comparators=[self.subst(c, env2) for c in test.comparators])
                 return self.branch(new, (env2, tr2), True)
+            # one `:=` nested in the (leaf) test, evaluated unconditionally: bind it, then test with its value
+            nested = [n for n in ast.walk(test) if isinstance(n, ast.NamedExpr)]
+            if len(nested) == 1 and isinstance(nested[0].target, ast.Name) and _unconditional_in(test, nested[0]) and sum(1 for n in ast.walk(test) if isinstance(n, ast.Name) and n.id == nested[0].target.id) == 1:
+                w = nested[0]
+                val = self.subst(w.value, env)
+                env2 = dict(env)
+                self.bind(w.target, val, env2)
+                tr2 = trace if _readonly(w.value) else trace + (("e", f"_ := {src(val)}"),)
+                self._bound_now(env2, w.target.id, tr2)
+                replaced = _replace_node(test, w, ast.Name(id=w.target.id, ctx=ast.Load()))
+                return self.branch(replaced, (env2, tr2), False)
             e = self.subst(test, env)
             if isinstance(e, (ast.BoolOp, ast.IfExp)) or (isinstance(e, ast.UnaryOp) and isinstance(e.op, ast.Not)):
                 return self.branch(e, st, True)
@@ -838,6 +849,45 @@ def _as_load(t):
 
 CONSUMERS = {"join", "all", "any", "sum", "set", "list", "tuple", "sorted", "min", "max", "frozenset", "extend", "update", "And", "Or",
              "smt_or", "smt_and", "dict", "Concat", "concat"}
+
+
+def _unconditional_in(root, node) -> bool:
+    """node is evaluated whenever root is (not under a short-circuit operand, a conditional expression, a lambda or a
+    comprehension), and nothing that root evaluates before it can observe the binding"""
+    def find(cur, cond):
+        if cur is node:
+            return not cond
+        for fld, val in ast.iter_fields(cur):
+            kids = val if isinstance(val, list) else [val]
+            for i, k in enumerate(kids):
+                if not isinstance(k, ast.AST):
+                    continue
+                c2 = cond
+                if isinstance(cur, ast.BoolOp) and fld == "values" and i > 0:
+                    c2 = True
+                if isinstance(cur, ast.IfExp) and fld in ("body", "orelse"):
+                    c2 = True
+                if isinstance(cur, (ast.Lambda, ast.ListComp, ast.SetComp, ast.DictComp, ast.GeneratorExp)):
+                    c2 = True
+                r = find(k, c2)
+                if r is not None:
+                    return r
+        return None
+
+    return bool(find(root, False))
+
+
+def _replace_node(root, old, new):
+    """a copy of root with the sub-tree `old` (by identity) replaced by `new`"""
+    if root is old:
+        return new
+    out = copy.copy(root)
+    for fld, val in ast.iter_fields(root):
+        if isinstance(val, list):
+            setattr(out, fld, [_replace_node(v, old, new) if isinstance(v, ast.AST) else v for v in val])
+        elif isinstance(val, ast.AST):
+            setattr(out, fld, _replace_node(val, old, new))
+    return out
 
 
 def _simple_operand(e) -> bool:
